@@ -330,20 +330,25 @@ func (e *Engine) buildPkgInferenceMap(triggers []annotation.FullTrigger) {
 	// Map each site to all the (distinct) triggers controlled by the site. The triggers are kept
 	// in their original order (rather than in a set) since the order in which they are activated
 	// decides the order of the sites in the inferred map, and hence in the exported facts.
-	controlledTgsBySite := map[primitiveSite][]annotation.FullTrigger{}
-	seen := map[annotation.FullTrigger]bool{}
+	//
+	// ObservePackage builds the inference map in two rounds. The controlled triggers registered in
+	// an earlier round must stay registered: their controller site may only be determined by the
+	// triggers of a later round.
+	if e.controlledTriggersBySite == nil {
+		e.controlledTriggersBySite = map[primitiveSite][]annotation.FullTrigger{}
+	}
 	for _, trigger := range triggers {
-		if !trigger.Controlled() || seen[trigger] {
+		if !trigger.Controlled() {
 			continue
 		}
-		seen[trigger] = true
 		// controller is an CallSiteParamAnnotationKey, which must be enclosed in a ArgPass
 		// consumer, which Kind() method returns Conditional which is not deep. Thus, we pass false
 		// here.
 		site := e.primitive.site(trigger.Controller, false)
-		controlledTgsBySite[site] = append(controlledTgsBySite[site], trigger)
+		if !slices.Contains(e.controlledTriggersBySite[site], trigger) {
+			e.controlledTriggersBySite[site] = append(e.controlledTriggersBySite[site], trigger)
+		}
 	}
-	e.controlledTriggersBySite = controlledTgsBySite
 
 	// The controlling site of a trigger may have already been determined to be nilable before the
 	// controlled triggers are registered above (e.g., by an explicit annotation at the call site).
